@@ -50,11 +50,16 @@ def od_factory():
 
 
 class Rig:
+    built = 0
+
     def __init__(self, instrument_wait=False):
         import canopen
         self.bus = simbus.SimBus(mode="inline")
         self.mnet, self.mst = simbus.make_network(self.bus, "master")
-        self.snet, self.sst = simbus.make_network(self.bus, "slave")
+        # the slave's interface: all four kinds of cyclic tasks in turn (modifiable in place, modifiable by copy, fixed
+        # frame that must be restarted to change, restartable)
+        Rig.built += 1
+        self.snet, self.sst = simbus.make_network(self.bus, "slave", modifiable=[True, False, "copy", "restartable"][Rig.built % 4])
         self.onet, self.ost = simbus.make_network(self.bus, "observer")
         self.ext = self.bus.actor_station("ext")
         self.m_k = self.mnet.add_node(canopen.RemoteNode(K, od_factory()))
